@@ -113,10 +113,7 @@ def load(reg):
     # brand-new simulator and model" and the warm-up filter of the simulation statistics, on generated model programs
     def sweep(table):
         from pyvc.ground import run_native
-        try:
-            res = run_native({"function": "DEVSSimulator.initialize", "obligation": "bounded-sweep", "property": "C06"})
-        except Exception as e:
-            return [("BOUNDED: replication-isolation sweep could not run", False, str(e)[:300])]
+        res = run_native({"function": "DEVSSimulator.initialize", "obligation": "bounded-sweep", "property": "C06"})
         return [("BOUNDED: 80 generated model programs (seeded stream, SimTally/SimCounter/SimPersistent created in construct_model) "
                  "x histories {fresh, initialised, stepped, paused, ended, paused by a failing handler}: second replication equals the "
                  "replication on a brand-new simulator and model; statistics = observations at or after warm-up; initialize from a "
@@ -125,10 +122,7 @@ def load(reg):
 
     def witness(table):
         from pyvc.ground import run_native
-        try:
-            res = run_native({"function": "DEVSSimulator.initialize", "obligation": "witness-stale-persistent", "property": "C06"})
-        except Exception as e:
-            return [("witness of the stale-statistic finding could not run", False, str(e)[:300])]
+        res = run_native({"function": "DEVSSimulator.initialize", "obligation": "witness-stale-persistent", "property": "C06"})
         return [("a model that is itself the data producer, with a SimPersistent created in construct_model, runs its second "
                  "replication like the first", not res.get("reproduced"), res.get("observed") or res.get("note"))]
     reg.ground_obligation("witness: statistics of the previous replication stay subscribed to a producer that outlives it", C06, witness)
